@@ -65,6 +65,8 @@ type c14sys struct {
 	returned  bool
 	marker    uint32
 	tags      bool
+	warm      int // earlier queries through the same plugin instance whose exchanges all failed
+	maxConns  int // upstream option max_conns
 }
 
 var errUp = errors.New("scripted upstream failure")
@@ -128,18 +130,38 @@ func (u *c14up) ExchangeContext(ctx context.Context, m []byte) (*[]byte, error) 
 }
 
 func c14Scenario(name string, n, conc int, menu []int, cmode int, tags bool, d int) vr.Scenario {
+	return c14ScenarioH(name, n, conc, menu, cmode, tags, d, 0, 0)
+}
+
+// c14ScenarioH: the judged query is preceded by warm queries through the same
+// instance (all their exchanges fail at once); upstreams are configured with
+// max_conns.
+func c14ScenarioH(name string, n, conc int, menu []int, cmode int, tags bool, d, warm, maxConns int) vr.Scenario {
 	var sys *c14sys
 	body := func() {
-		s := &c14sys{n: n, conc: conc, menu: menu, cmode: cmode, tags: tags}
+		s := &c14sys{n: n, conc: conc, menu: menu, cmode: cmode, tags: tags, warm: warm, maxConns: maxConns}
 		sys = s
 		f := &Forward{args: &Args{Concurrent: conc}, logger: zap.NewNop(), tag2Upstream: map[string]*upstreamWrapper{}}
 		for i := 0; i < n; i++ {
 			up := &c14up{idx: i, sys: s}
 			s.ups = append(s.ups, up)
-			uw := newWrapper(i, UpstreamConfig{Tag: fmt.Sprintf("t%d", i), Addr: fmt.Sprintf("fake%d", i)}, "c14")
+			uw := newWrapper(i, UpstreamConfig{Tag: fmt.Sprintf("t%d", i), Addr: fmt.Sprintf("fake%d", i), MaxConns: maxConns}, "c14")
 			uw.u = up
 			f.us = append(f.us, uw)
 			f.tag2Upstream[uw.cfg.Tag] = uw
+		}
+		for w := 0; w < warm; w++ {
+			s.menu = []int{uError}
+			wq := new(dns.Msg)
+			wq.SetQuestion("forward.example.", dns.TypeA)
+			_ = f.Exec(context.Background(), query_context.NewContext(wq))
+		}
+		if warm > 0 {
+			// the history is over: only the next query is judged
+			s.menu, s.calls, s.marker = menu, nil, 0
+			for _, up := range s.ups {
+				up.calls = nil
+			}
 		}
 		q := new(dns.Msg)
 		q.SetQuestion("forward.example.", dns.TypeA)
@@ -187,7 +209,7 @@ func c14Scenario(name string, n, conc int, menu []int, cmode int, tags bool, d i
 		sorted := append([]string{}, outs...)
 		sort.Strings(sorted)
 		key := strings.Join(sorted, " ") + " => " + res
-		desc := fmt.Sprintf("n=%d concurrent=%d ctxmode=%d tags=%v calls(in call order)=%v -> err=%v resp=%v ret@%v", s.n, s.conc, s.cmode, s.tags, outs, s.err, respStr(s.resp), s.retAt)
+		desc := fmt.Sprintf("n=%d concurrent=%d ctxmode=%d tags=%v warm=%d max_conns=%d calls(in call order)=%v -> err=%v resp=%v ret@%v", s.n, s.conc, s.cmode, s.tags, s.warm, s.maxConns, outs, s.err, respStr(s.resp), s.retAt)
 		V := func(oracle, why string) (string, *vs.Violation) {
 			return key, &vs.Violation{Sig: name + "/" + oracle, Desc: why + "\n" + desc}
 		}
@@ -406,6 +428,10 @@ func TestVerifC14(t *testing.T) {
 		c14Scenario("n3-c3-deadline", 3, 3, slow, 1, false, d),
 		c14Scenario("n3-c2-cancel", 3, 2, small, 2, false, d),
 		c14Scenario("n3-c2-tags", 3, 2, small, 0, true, d),
+		c14Scenario("n2-c1-deadline", 2, 1, slow, 1, false, d),
+		c14Scenario("n1-c0-cancel", 1, 0, small, 2, false, d),
+		c14ScenarioH("n2-c1-maxconns1-after-2-failures", 2, 1, small, 0, false, d, 2, 1),
+		c14ScenarioH("n1-c3-maxconns2-after-3-failures", 1, 3, small, 0, false, d, 3, 2),
 	}
 	vr.RunScenarios("C14", scs)
 }
